@@ -147,7 +147,7 @@ func (sc *scenario) restorePlan(r *rand.Rand) []rfault {
 	quick := kit.Quick()
 	plan = append(plan, rfault{Kind: "clean", CurMode: "same"}, rfault{Kind: "clean", CurMode: "other", Users: sc.users[:1]})
 	if quick {
-		plan = append(plan, rfault{Kind: "undo-after-success", CurMode: []string{"same", "other"}[r.Intn(2)]})
+		plan = append(plan, rfault{Kind: "undo-after-success", CurMode: "same"})
 	} else {
 		plan = append(plan, rfault{Kind: "clean", CurMode: "unset"})
 		plan = append(plan, rfault{Kind: "undo-after-success", CurMode: "same"}, rfault{Kind: "undo-after-success", CurMode: "other"})
